@@ -35,6 +35,8 @@ class Abstraction:
     def __init__(self):
         self.ids = {}
         self.keep = []
+        self.vecs = {}
+        self.facts = []
 
     def oid(self, o):
         k = id(o)
@@ -45,6 +47,20 @@ class Abstraction:
 
     def known(self, o):
         return id(o) in self.ids
+
+    def vec(self, arr):
+        """a numpy vector as a named constant of the abstract sort Vec; its dimension becomes a background fact"""
+        k = id(arr)
+        if k not in self.vecs:
+            c = z3.Const('vec_%d' % len(self.vecs), Vec)
+            self.vecs[k] = c
+            self.keep.append(arr)
+            self.facts.append(vdim(c) == int(arr.shape[0]) if getattr(arr, 'ndim', 0) == 1 else vdim(c) == -1)
+        return self.vecs[k]
+
+    def background(self):
+        cs = list(self.vecs.values())
+        return self.facts + ([z3.Distinct(*cs)] if len(cs) > 1 else [])
 
     def key(self, k):
         if isinstance(k, tuple) and len(k) == 2:
@@ -204,6 +220,8 @@ def _default(sort):
         return z3.RealVal(0)
     if sort == I:
         return z3.IntVal(-7)
+    if sort == Vec:
+        return z3.Const('vec_none', Vec)
     if isinstance(sort, z3.ArraySortRef):
         return z3.K(sort.domain(), _default(sort.range()))
     raise sx.OutOfSubset('default for sort %s' % sort)
@@ -221,6 +239,8 @@ def _scalar_value(ab, ty, val, todo):
     if ty.k in ('ref', 'dict', 'list', 'htuple'):
         todo.append(val)
         return z3.IntVal(ab.oid(val))
+    if ty.k == 'vec':
+        return ab.vec(val)
     raise sx.OutOfSubset('field of type %r' % (ty,))
 
 
@@ -261,6 +281,8 @@ def value_of(ab, ty, pyval):
         return V(ty, items=[value_of(ab, t, x) for t, x in zip(ty.a, pyval)])
     if ty.k == 'key':
         return V(ty, ab.key(pyval))
+    if ty.k == 'vec':
+        return V(ty, ab.vec(pyval))
     raise sx.OutOfSubset('concrete value of type %r' % (ty,))
 
 
@@ -299,10 +321,14 @@ def _matches(pyval, ty):
     return False
 
 
+BACKGROUND = []
+
+
 def holds(f, timeout_ms=5000):
     """decide a closed formula over concrete heaps: True / False / None (inconclusive)"""
     s = z3.Solver()
     s.set('timeout', timeout_ms)
+    s.add(*BACKGROUND)
     s.add(z3.Not(f))
     r = s.check()
     if r == z3.unsat:
@@ -335,6 +361,8 @@ def run_contract(c, real_fn, argvals, global_types, extra_roots=()):
     roots = [argvals[n] for n, _ in c.params] + list(extra_roots)
     S0 = snapshot(ab, roots, global_types, 'pre')
     a = {n: value_of(ab, tys[n], argvals[n]) for n, _ in c.params}
+    BACKGROUND[:] = ab.background() + list(c.axioms())
+    pre_copy = c.runtime_pre(argvals) if getattr(c, 'runtime_pre', None) else None
     for lab, f in c.requires(S0, a):
         h = holds(f)
         if h is not True:
@@ -351,6 +379,7 @@ def run_contract(c, real_fn, argvals, global_types, extra_roots=()):
         rr.exc_text = str(e)[:200]
     roots2 = roots + ([out] if out is not None else [])
     S = snapshot(ab, roots2, global_types, 'post')
+    BACKGROUND[:] = ab.background() + list(c.axioms())
     engine = sx.Engine.__new__(sx.Engine)
     if rr.outcome != 'return':
         allowed = [when for exc, when in c.raises if sx.Engine.exc_matches(engine, rr.outcome, exc)]
@@ -371,7 +400,12 @@ def run_contract(c, real_fn, argvals, global_types, extra_roots=()):
     except Exception as e:
         rr.failed.append(('post[result_type]', 'result %r does not have declared type %r (%s)' % (out, rt, e)))
         return rr
+    if c.runtime:
+        for lab, detail in c.runtime(argvals, out, pre_copy):
+            rr.failed.append(('post[%s]' % lab, detail))
     for lab, f, tg in c.ensures(S0, S, a, res):
+        if tg == 'ghost':
+            continue          # clause over an uninterpreted spec function: decided by the contract's run-time oracle instead
         h = holds(f)
         if h is False:
             rr.failed.append(('post[%s]' % lab, tg))
